@@ -566,7 +566,7 @@ func runFrame(fr *frame) {
 		fr.panicking = true
 		fr.panic = recover()
 		switch fr.panic.(type) {
-		case inconclusive, pathEnd:
+		case inconclusive, pathEnd, processCrash, killSignal:
 			if debugOn {
 				debugf("  unwinding %T through %s", fr.panic, fr.fn.String())
 			}
@@ -769,7 +769,7 @@ func callExternal(ext externalFn, fr *frame, args []value) (res value) {
 	defer func() {
 		if r := recover(); r != nil {
 			switch p := r.(type) {
-			case inconclusive, pathEnd, targetPanic, exitPanic, killSignal, deadlock:
+			case inconclusive, pathEnd, targetPanic, exitPanic, killSignal, deadlock, processCrash:
 				panic(r)
 			case error:
 				if strings.Contains(p.Error(), "interp.") || strings.Contains(p.Error(), "interface conversion") {
